@@ -113,7 +113,11 @@ class Smt:
         head = '(set-logic ALL)\n'
         if produce_models:
             head = '(set-option :produce-models true)\n' + head
-        return head + s.sexpr() + '\n(check-sat)\n' + ('(get-model)\n' if produce_models else '')
+        body = s.sexpr()
+        # z3 prints divisions whose divisor it knows to be non-zero with internal names; they equal the SMT-LIB operators there
+        for op in ('bvudiv', 'bvurem', 'bvsdiv', 'bvsrem', 'bvsmod'):
+            body = body.replace(op + '_i ', op + ' ')
+        return head + body + '\n(check-sat)\n' + ('(get-model)\n' if produce_models else '')
 
     def _run_external(self, cmd, text, timeout_s):
         with tempfile.NamedTemporaryFile('w', suffix='.smt2', delete=False, dir=os.environ.get('VERIF_SCRATCH', None)) as f:
